@@ -53,7 +53,7 @@ def base_cases(tier, seed):
 
     def product_ops(n, k, m, A, B, exhaustive=False):
         a, b = crs(n, k, A), crs(k, m, B)
-        Bs = gen.sorted_distinct(B); bs = crs(k, m, Bs)
+        Bs = gen.c08_sorted_distinct(B); bs = crs(k, m, Bs)
         add("saad", a, b, 0); add("saad", a, b, 1)
         add("rmerge", a, bs)
         if not exhaustive or r.random() < 0.25:
@@ -65,32 +65,41 @@ def base_cases(tier, seed):
         na, nb = 1 << (n * k), 1 << (k * m)
         total = na * nb
         budget = (600 if quick else 70000) if total > 600 else total
+        light = set()
         if total <= budget: pairs = [(pa, pb) for pa in range(na) for pb in range(nb)]
-        else:
-            # a slice: a random sample plus all pairs with a full/empty partner
+        elif quick:
+            # a slice: a random sample plus pairs with a full partner
             pairs = [(r.randrange(na), r.randrange(nb)) for _ in range(budget)]
             pairs += [(na - 1, pb) for pb in range(0, nb, max(1, nb // 64))] + [(pa, nb - 1) for pa in range(0, na, max(1, na // 64))]
-        for (pa, pb) in pairs:
+        else:
+            # thorough: ALL pairs; the full op set for a random 'budget/total' share of them,
+            # the marker-based product alone (sort alternating) for the rest
+            pairs = [(pa, pb) for pa in range(na) for pb in range(nb)]
+            light = None
+        for pi, (pa, pb) in enumerate(pairs):
             off = r.randrange(len(PAL))
             pal = PAL[off:] + PAL[:off]
-            A = gen.pattern_rows(pa, n, k, pal, r.choice(["sorted", "sorted", "reversed"]))
-            B = gen.pattern_rows(pb, k, m, pal[3:] + pal[:3], r.choice(["sorted", "sorted", "reversed"]))
-            product_ops(n, k, m, A, B, exhaustive=True)
+            A = gen.c08_pattern_rows(pa, n, k, pal, r.choice(["sorted", "sorted", "reversed"]))
+            B = gen.c08_pattern_rows(pb, k, m, pal[3:] + pal[:3], r.choice(["sorted", "sorted", "reversed"]))
+            if light is None and r.random() >= budget / float(total):
+                add("saad", crs(n, k, A), crs(k, m, B), pi % 2)
+            else:
+                product_ops(n, k, m, A, B, exhaustive=True)
     # all single patterns up to 3x3 (4x4 slice) for the unary kernels and pattern pairs for sum
     for (n, m) in [(1, 1), (1, 2), (2, 1), (2, 2), (2, 3), (3, 2), (3, 3), (4, 4)]:
         npat = 1 << (n * m)
         pats = range(npat) if (npat <= 512 and not quick) or npat <= 64 else [r.randrange(npat) for _ in range(150 if quick else 3000)]
         for pa in pats:
             off = r.randrange(len(PAL)); pal = PAL[off:] + PAL[:off]
-            A = gen.pattern_rows(pa, n, m, pal, r.choice(["sorted", "reversed"]))
+            A = gen.c08_pattern_rows(pa, n, m, pal, r.choice(["sorted", "reversed"]))
             a = crs(n, m, A)
             add("transpose", a); add("sort_rows", a); add("scale", a, fmt_q(r.choice(PAL + [F(0)])))
             pb = r.randrange(npat)
-            B = gen.pattern_rows(pb, n, m, pal[5:] + pal[:5], r.choice(["sorted", "reversed"]))
+            B = gen.c08_pattern_rows(pb, n, m, pal[5:] + pal[:5], r.choice(["sorted", "reversed"]))
             add("sum", fmt_q(gen.coef(r)), a, fmt_q(gen.coef(r)), crs(n, m, B), r.choice([0, 1]))
             for bs in (1, 2):
                 if n % bs == 0 and m % bs == 0:
-                    add("pointwise", crs(n, m, gen.sorted_distinct(A)), bs)
+                    add("pointwise", crs(n, m, gen.c08_sorted_distinct(A)), bs)
             if n == m:
                 add("specrad", 0, "@NT@", a); add("specrad", 1, "@NT@", a)
 
@@ -112,12 +121,14 @@ def base_cases(tier, seed):
         product_ops(n, k, m, A, B)
         add("transpose", a)
         add("sum", fmt_q(gen.coef(r)), a, fmt_q(gen.coef(r)), crs(n, k, A2), r.choice([0, 1]))
+        if it % 17 == 3 and (n, k) != (k, m):     # shape precondition of sum: runtime_error
+            add("sum", fmt_q(gen.coef(r)), a, fmt_q(gen.coef(r)), crs(k, m, B), 0)
         add("scale", a, fmt_q(gen.coef(r)))
         add("sort_rows", a)
         for op in ("copy_crs", "copy_ranges"): add(op, a)
         add("copy_assign", a, crs(k, m, B))
         # square with a diagonal
-        D = gen.with_diag(r, gen.rcrs(r, n, n, density=dens, dups=dups), n, zero_ok=False)
+        D = gen.c08_with_diag(r, gen.rcrs(r, n, n, density=dens, dups=dups), n, zero_ok=False)
         d = crs(n, n, D)
         add("copy_tuple", d)
         add("diagonal", d, 0); add("diagonal", d, 1)
@@ -148,11 +159,11 @@ def base_cases(tier, seed):
         np_, mp_ = (r.randint(1, 4), r.randint(1, 4)) if not big else (r.randint(3, 10), r.randint(3, 10))
         kindp = r.choice(["kron", "dense", "incomplete", "blockdiag", "random", "unsorted", "indivisible"])
         if kindp == "kron":
-            P = gen.kron_identity(gen.sorted_distinct(gen.rcrs(r, np_, mp_, dups=False)), b); pn, pm = np_ * b, mp_ * b
+            P = gen.c08_kron_identity(gen.c08_sorted_distinct(gen.rcrs(r, np_, mp_, dups=False)), b); pn, pm = np_ * b, mp_ * b
         elif kindp == "dense":
-            P = gen.block_matrix(r, np_, mp_, b, r.choice([0.3, 0.7]), 1.0); pn, pm = np_ * b, mp_ * b
+            P = gen.c08_block_matrix(r, np_, mp_, b, r.choice([0.3, 0.7]), 1.0); pn, pm = np_ * b, mp_ * b
         elif kindp == "incomplete":
-            P = gen.block_matrix(r, np_, mp_, b, r.choice([0.3, 0.7]), r.choice([0.3, 0.6])); pn, pm = np_ * b, mp_ * b
+            P = gen.c08_block_matrix(r, np_, mp_, b, r.choice([0.3, 0.7]), r.choice([0.3, 0.6])); pn, pm = np_ * b, mp_ * b
         elif kindp == "blockdiag":
             P = [[] for _ in range(np_ * b)]; pn = pm = np_ * b
             for I in range(np_):
@@ -160,12 +171,12 @@ def base_cases(tier, seed):
                     P[I * b + kk] = [(I * b + l, gen.rq(r, nz=True)) for l in range(b) if r.random() < 0.8]
         elif kindp == "random":
             pn, pm = np_ * b, mp_ * b
-            P = gen.sorted_distinct(gen.rcrs(r, pn, pm))
+            P = gen.c08_sorted_distinct(gen.rcrs(r, pn, pm))
         elif kindp == "unsorted":
-            P = gen.block_matrix(r, np_, mp_, b, 0.5, 0.8, sorted_rows=False); pn, pm = np_ * b, mp_ * b
+            P = gen.c08_block_matrix(r, np_, mp_, b, 0.5, 0.8, sorted_rows=False); pn, pm = np_ * b, mp_ * b
         else:
             pn, pm = np_ * b + r.choice([0, 1]), mp_ * b + r.choice([0, 1])
-            P = gen.sorted_distinct(gen.rcrs(r, pn, pm))
+            P = gen.c08_sorted_distinct(gen.rcrs(r, pn, pm))
         add("pointwise", crs(pn, pm, P), b)
         # complex (non-trivial adjoint)
         if it % 3 == 0:
@@ -324,7 +335,8 @@ def run(ctx, cases_override=None):
     by_id = {l.split(" ", 1)[0]: l for l in lines}
     for nt in sorted(groups):
         ls = groups[nt]
-        env = {"OMP_NUM_THREADS": str(nt), "OMP_DYNAMIC": "false"}
+        env = {"OMP_NUM_THREADS": str(nt), "OMP_DYNAMIC": "false",
+               "OMP_WAIT_POLICY": "passive", "GOMP_SPINCOUNT": "0"}   # no busy-waiting when oversubscribed
         # power method: feed the model the start vector the implementation draws
         model_lines = None
         pm = [l for l in ls if l.split(" ", 2)[1] == "specrad_power"]
